@@ -7,8 +7,10 @@ evidence file and report."""
 import fcntl, hashlib, json, os, re, subprocess, sys, time, tempfile, shutil
 
 VERIF = os.path.dirname(os.path.dirname(os.path.abspath(__file__)))
-COQ = os.path.join(VERIF, 'coq')
-OCAML = os.path.join(VERIF, 'ocaml')
+# developer runs against a scratch tree (tools/seed_eval.sh, tools/try_mutation.sh) work on a private copy of coq/ and ocaml/
+# (KV_WORK=<dir holding both>), so that the tables they regenerate from a CHANGED tree never meet a check of /repo itself
+COQ = os.path.join(os.environ.get('KV_WORK') or VERIF, 'coq')
+OCAML = os.path.join(os.environ.get('KV_WORK') or VERIF, 'ocaml')
 OUT = os.path.join(VERIF, 'out')
 EVID = os.environ.get('KV_EVID') or os.path.join(VERIF, 'evidence')     # developer runs against scratch trees write elsewhere
 
@@ -259,7 +261,7 @@ class Check:
         return os.path.join(OCAML, 'kvm')
 
     # ---- running cases ------------------------------------------------------------------
-    def run_lines(self, exe, lines, timeout=600, env=None, args=(), case_timeout=None):
+    def run_lines(self, exe, lines, timeout=600, env=None, args=(), case_timeout=None, _hangs=0):
         """Feed case lines to a line-oriented runner, return its output lines (padded/truncated to len(lines)).
         A runner that dies, or that does not answer one case within [case_timeout] seconds (a hang), gets that case
         marked 'CRASH ...' / 'CRASH rc=-999 TIMEOUT' and is restarted on the remaining cases."""
@@ -268,7 +270,14 @@ class Check:
             case_timeout = float(os.environ.get('KV_CASE_TIMEOUT', '150'))
         case_timeout = min(case_timeout, timeout)
         data = ('\n'.join(lines) + '\n').encode()
-        p = subprocess.Popen([exe] + list(args), stdin=subprocess.PIPE, stdout=subprocess.PIPE, stderr=subprocess.PIPE, env=env)
+        # a runaway allocation of the code under test must fail in that process, not exhaust the machine: cap the address space of
+        # the non-sanitizer runners (ASan reserves terabytes of address space and keeps its own limits)
+        def cap():
+            if '/asan/' not in exe and '/ubsan/' not in exe and '/san' not in exe:
+                import resource
+                try: resource.setrlimit(resource.RLIMIT_AS, (24 << 30, 24 << 30))
+                except Exception: pass
+        p = subprocess.Popen([exe] + list(args), stdin=subprocess.PIPE, stdout=subprocess.PIPE, stderr=subprocess.PIPE, env=env, preexec_fn=cap)
         q = queue.Queue()
         errbuf = []
         def feed():
@@ -313,7 +322,13 @@ class Check:
             crashed_at = len(out)
             tag = 'CRASH rc=%d %s' % (rc, self.crash_kind(err))
             rest = lines[crashed_at + 1:]
-            more = self.run_lines(exe, rest, max(1, t_end - time.time()) if timed_out else timeout, env, args, case_timeout) if rest else []
+            hangs = _hangs + (1 if timed_out else 0)
+            if hangs >= 3 and rest:
+                # three cases of this batch hung: the remaining ones are not run (each would cost the watchdog again); they are
+                # reported as not answered, which every check treats like a crash of the case
+                more = ['CRASH rc=-999 TIMEOUT (not run: the runner hung on three earlier cases of this batch)'] * len(rest)
+            else:
+                more = self.run_lines(exe, rest, max(1, t_end - time.time()) if timed_out else timeout, env, args, case_timeout, hangs) if rest else []
             out = out + [tag] + more
         return out[:len(lines)]
 
